@@ -72,7 +72,8 @@ func (p *SliceLossIndication) Unmarshal(rawPacket []byte) error {
 		return err
 	}
 
-	if len(rawPacket) < (headerLength + int(4*h.Length)) {
+	length := 4 * int(h.Length)
+	if len(rawPacket) < (headerLength + length) {
 		return errPacketTooShort
 	}
 
@@ -82,7 +83,7 @@ func (p *SliceLossIndication) Unmarshal(rawPacket []byte) error {
 
 	p.SenderSSRC = binary.BigEndian.Uint32(rawPacket[headerLength:])
 	p.MediaSSRC = binary.BigEndian.Uint32(rawPacket[headerLength+ssrcLength:])
-	for i := headerLength + sliOffset; i < (headerLength + int(h.Length*4)); i += 4 {
+	for i := headerLength + sliOffset; i < (headerLength + length); i += 4 {
 		sli := binary.BigEndian.Uint32(rawPacket[i:])
 		p.SLI = append(p.SLI, SLIEntry{
 			First:   uint16((sli >> 19) & 0x1FFF),
